@@ -518,3 +518,273 @@ Section Loop.
           -- specialize (Hlt eq_refl). rewrite (Hsame eq_refl) in *. unfold mu. rewrite Hst. lia.
   Qed.
 End Loop.
+
+(* a raise of the inner loop names a key of process_dict *)
+Lemma sel_wait_raise W fuel n : forall have s w c,
+  sel_wait fuel W n have s = inl (PRaised w c) ->
+  exists j, In j (ss_running s) /\ fst j = w /\ c = code W w /\ c <> 0%Z.
+Proof.
+  induction fuel as [|f IH]; intros have s w c; cbn [sel_wait];
+    destruct ((length (ss_running s) <? n)%nat && have)%bool; try discriminate.
+  pose proof (winnow_dict_spec W (ss_clock s) (ss_running s)) as Hs.
+  destruct (winnow_dict W (ss_clock s) (ss_running s)) as [r'|w1 c1].
+  - destruct Hs as [Hr _]. intros H. apply IH in H. cbn [ss_running] in H.
+    destruct H as (j & Hj & H). exists j. split; [|exact H]. subst r'. apply filter_In in Hj. tauto.
+  - intros H; inversion H; subst. destruct Hs as (j & Hj & H1 & _ & H3 & H4). exists j. auto.
+Qed.
+
+Section Raise.
+  Variable W : world.
+  Variable n : nat.
+  Variables beh sml leafless : list nat.
+
+  (* only parents with leaf pairs get a process *)
+  Definition procs_have_leaves (s : sel_state) : Prop :=
+    forall j, In j (ss_running s) -> mem (fst j) leafless = false.
+
+  Lemma sel_step_leaves s : procs_have_leaves s -> procs_have_leaves (snd (sel_step beh sml leafless s)).
+  Proof.
+    intros H. unfold sel_step. destruct (choose_parent beh sml s) as [p|]; cbn [snd]; [|exact H].
+    unfold start_state. destruct (mem p leafless) eqn:E; [exact H|].
+    intros j Hj. cbn [ss_running] in Hj. apply in_app_or in Hj.
+    destruct Hj as [Hj|[<-|[]]]; [apply H; exact Hj | exact E].
+  Qed.
+
+  Lemma sel_loop_raise_leaves fuel : forall outer s w c,
+    loop_inv beh sml s -> procs_have_leaves s ->
+    fst (sel_loop outer fuel W n (length beh + length sml) beh sml leafless s) = PRaised w c ->
+    mem w leafless = false.
+  Proof.
+    induction outer as [|o IH]; intros s w c Hi Hl;
+      destruct (length beh + length sml <=? length (ss_started s))%nat eqn:En.
+    - rewrite sel_loop_done by exact En. unfold drain.
+      destruct (sel_wait fuel W 1 true s) as [r|s'] eqn:Ew; cbn [fst]; [|discriminate].
+      intros ->. apply sel_wait_raise in Ew. destruct Ew as (j & Hj & <- & _). apply Hl. exact Hj.
+    - rewrite sel_loop_out_of_fuel by exact En. discriminate.
+    - rewrite sel_loop_done by exact En. unfold drain.
+      destruct (sel_wait fuel W 1 true s) as [r|s'] eqn:Ew; cbn [fst]; [|discriminate].
+      intros ->. apply sel_wait_raise in Ew. destruct Ew as (j & Hj & <- & _). apply Hl. exact Hj.
+    - rewrite sel_loop_step by exact En.
+      pose proof (sel_step_inv beh sml leafless s Hi) as Hi1.
+      pose proof (sel_step_leaves s Hl) as Hl1.
+      destruct (sel_wait fuel W n (fst (sel_step beh sml leafless s)) (snd (sel_step beh sml leafless s)))
+        as [r|s'] eqn:Ew.
+      + cbn [fst]. intros ->. apply sel_wait_raise in Ew. destruct Ew as (j & Hj & <- & _). apply Hl1. exact Hj.
+      + destruct Hi1 as [Hp1 Hincl1]. apply sel_wait_inr in Ew; [|exact Hp1].
+        destruct Ew as (Hi' & Hst & _ & _ & _ & Hsub). apply IH.
+        * split; [exact Hi'|]. rewrite Hst. exact Hincl1.
+        * intros j Hj. apply Hl1. apply Hsub. exact Hj.
+  Qed.
+End Raise.
+
+Lemma loop_inv_init beh sml : loop_inv beh sml sel_init.
+Proof. split; [apply pool_inv_init | intros p []]. Qed.
+
+(* ---- the full statement of the scheduler (Props/C14.v: c14_selection_scheduler) *)
+Theorem selection_scheduler : forall (W : world) (n : nat) (behemoths smaller leafless : list nat),
+  (1 <= n)%nat -> NoDup (behemoths ++ smaller) ->
+  let parents := behemoths ++ smaller in
+  let r := run_selection_pool W n behemoths smaller leafless in
+  fst r <> PHang /\
+  (fst r = POk ->
+     Permutation (ss_started (snd r)) parents /\ Permutation (ss_completed (snd r)) parents /\
+     ss_running (snd r) = [] /\
+     forall p, In p parents -> mem p leafless = false -> code W p = 0%Z) /\
+  (forall w c, fst r = PRaised w c ->
+     In w parents /\ mem w leafless = false /\ c = code W w /\ c <> 0%Z) /\
+  ((exists p, In p parents /\ mem p leafless = false /\ code W p <> 0%Z) ->
+     exists w c, fst r = PRaised w c).
+Proof.
+  intros W n beh sml leafless Hn Hnd parents r.
+  pose proof (loop_inv_init beh sml) as Hi0.
+  assert (Hnh : fst r <> PHang).
+  { subst r. unfold run_selection_pool, pool_fuel.
+    apply (sel_loop_no_hang W n beh sml leafless Hnd Hn).
+    - intros p Hp. apply list_max_ge. apply in_map. apply in_seq.
+      pose proof (list_max_ge p (beh ++ sml) Hp). lia.
+    - exact Hi0.
+    - unfold mu. cbn. lia. }
+  pose proof (sel_loop_inv_all W n beh sml leafless
+                (pool_fuel W (S (list_max (beh ++ sml)))) (S (2 * (length beh + length sml))) sel_init Hi0)
+    as Hall.
+  change (loop_inv beh sml (snd r) /\
+          (fst r = POk -> (length beh + length sml <= length (ss_started (snd r)))%nat /\
+                          ss_running (snd r) = [])) in Hall.
+  destruct Hall as (Hinv & Hok).
+  destruct (selection_pool_verdict W n beh sml leafless) as (Hsafe & Hraise). fold r in Hsafe, Hraise.
+  assert (Hok' : fst r = POk ->
+     Permutation (ss_started (snd r)) parents /\ Permutation (ss_completed (snd r)) parents /\
+     ss_running (snd r) = [] /\
+     forall p, In p parents -> mem p leafless = false -> code W p = 0%Z).
+  { intros E. destruct (Hok E) as (Hlen & Hrun).
+    destruct Hinv as [(Hs & Hc & Hr & Hd & Hsub & Hck) Hincl].
+    assert (Hps : Permutation (ss_started (snd r)) parents).
+    { apply NoDup_Permutation_bis; [exact Hs | | exact Hincl].
+      unfold parents. rewrite app_length. exact Hlen. }
+    split; [exact Hps|]. split; [|split; [exact Hrun|]].
+    - transitivity (ss_started (snd r)); [|exact Hps].
+      apply NoDup_Permutation; [exact Hc | exact Hs|]. intros p. split; [apply Hsub|].
+      intros Hp. destruct (in_dec Nat.eq_dec p (ss_completed (snd r))) as [Hi|Hi]; [exact Hi|].
+      exfalso. assert (H : In p (map fst (ss_running (snd r)))) by (apply Hd; tauto).
+      rewrite Hrun in H. destruct H.
+    - intros p Hp Hl. apply (Hsafe E); [|exact Hl].
+      apply (Permutation_in p (Permutation_sym Hps)). exact Hp. }
+  split; [exact Hnh|]. split; [exact Hok'|]. split.
+  - intros w c E. destruct (Hraise w c E) as (Hw & Hc & Hnz).
+    split; [apply Hinv; exact Hw|]. split; [|split; assumption].
+    subst r. unfold run_selection_pool in E.
+    eapply (sel_loop_raise_leaves W n beh sml leafless); [exact Hi0 | intros j [] | exact E].
+  - intros (p & Hp & Hl & Hc). destruct (fst r) as [|w c|] eqn:E.
+    + exfalso. apply Hc. apply Hok'; auto.
+    + exists w, c. reflexivity.
+    + contradiction.
+Qed.
+
+(* the same for the parents 0..k-1 split in any way into behemoths and smaller *)
+Corollary selection_scheduler_partition : forall (W : world) (n k : nat) (behemoths smaller leafless : list nat),
+  (1 <= n)%nat -> Permutation (behemoths ++ smaller) (seq 0 k) ->
+  let r := run_selection_pool W n behemoths smaller leafless in
+  fst r <> PHang /\
+  (fst r = POk ->
+     Permutation (ss_started (snd r)) (seq 0 k) /\ Permutation (ss_completed (snd r)) (seq 0 k) /\
+     ss_running (snd r) = [] /\
+     forall p, (p < k)%nat -> mem p leafless = false -> code W p = 0%Z) /\
+  (forall w c, fst r = PRaised w c ->
+     (w < k)%nat /\ mem w leafless = false /\ c = code W w /\ c <> 0%Z) /\
+  ((exists p, (p < k)%nat /\ mem p leafless = false /\ code W p <> 0%Z) ->
+     exists w c, fst r = PRaised w c).
+Proof.
+  intros W n k beh sml leafless Hn Hperm r.
+  assert (Hnd : NoDup (beh ++ sml)).
+  { apply (Permutation_NoDup (Permutation_sym Hperm)). apply seq_NoDup. }
+  assert (Hin : forall p, In p (beh ++ sml) <-> (p < k)%nat).
+  { intros p. split.
+    - intros H. apply (Permutation_in p Hperm) in H. apply in_seq in H. lia.
+    - intros H. apply (Permutation_in p (Permutation_sym Hperm)). apply in_seq. lia. }
+  destruct (selection_scheduler W n beh sml leafless Hn Hnd) as (H1 & H2 & H3 & H4). fold r in H1, H2, H3, H4.
+  split; [exact H1|]. split; [|split].
+  - intros E. destruct (H2 E) as (A & B & C & D).
+    split; [rewrite A; exact Hperm|]. split; [rewrite B; exact Hperm|]. split; [exact C|].
+    intros p Hp. apply D. apply Hin. exact Hp.
+  - intros w c E. destruct (H3 w c E) as (A & B). split; [apply Hin; exact A | exact B].
+  - intros (p & Hp & Hl & Hc). apply H4. exists p. split; [apply Hin; exact Hp | auto].
+Qed.
+
+(* ---- the limits the scheduler is there to enforce: at most n processes, at most one
+   behemoth among them -- at every state the loop can hand back *)
+Section Limits.
+  Variable W : world.
+  Variable n : nat.
+  Variables beh sml leafless : list nat.
+  Hypothesis Hnd : NoDup (beh ++ sml).
+  Hypothesis Hn : (1 <= n)%nat.
+
+  Definition one_behemoth (s : sel_state) : Prop :=
+    forall b1 b2, In b1 beh -> In b2 beh ->
+      In b1 (map fst (ss_running s)) -> In b2 (map fst (ss_running s)) -> b1 = b2.
+
+  Lemma choose_some_branch s p : choose_parent beh sml s = Some p ->
+    (In p beh /\ behemoth_running beh s = false) \/ In p sml.
+  Proof.
+    unfold choose_parent, first_unstarted. intros H.
+    destruct (behemoth_running beh s) eqn:Eb.
+    - right. apply find_some in H. tauto.
+    - destruct (find (fun p => negb (mem p (ss_started s))) beh) as [q|] eqn:Ef.
+      + inversion H; subst q. left. apply find_some in Ef. tauto.
+      + right. apply find_some in H. tauto.
+  Qed.
+
+  Lemma no_behemoth_running s b : pool_inv s -> behemoth_running beh s = false ->
+    In b beh -> ~ In b (map fst (ss_running s)).
+  Proof.
+    intros (Hs & Hc & Hr & Hd & Hsub & Hck) Eb Hb Hin. apply Hd in Hin. destruct Hin as [H1 H2].
+    rewrite <- not_true_iff_false in Eb. apply Eb. unfold behemoth_running.
+    apply existsb_exists. exists b. split; [exact Hb|].
+    apply andb_true_iff. split; [apply mem_in; exact H1 | apply negb_true_iff, mem_not_in; exact H2].
+  Qed.
+
+  Lemma step_limits s : loop_inv beh sml s -> (length (ss_running s) < n)%nat -> one_behemoth s ->
+    (length (ss_running (snd (sel_step beh sml leafless s))) <= n)%nat /\
+    one_behemoth (snd (sel_step beh sml leafless s)).
+  Proof.
+    intros [Hi Hincl] Hlen Hone. unfold sel_step.
+    destruct (choose_parent beh sml s) as [p|] eqn:Ec; cbn [snd]; [|split; [lia | exact Hone]].
+    unfold start_state. destruct (mem p leafless); cbn [ss_running]; [split; [lia | exact Hone]|].
+    split; [rewrite app_length; cbn; lia|].
+    apply choose_some_branch in Ec.
+    intros b1 b2 Hb1 Hb2. cbn [ss_running]. rewrite map_app, !in_app_iff. cbn [map fst In].
+    destruct Ec as [[Hpb Eb]|Hps].
+    - pose proof (no_behemoth_running s b1 Hi Eb Hb1). pose proof (no_behemoth_running s b2 Hi Eb Hb2).
+      intros [H1|[H1|[]]] [H2|[H2|[]]]; try contradiction. congruence.
+    - assert (Hnb : ~ In p beh).
+      { intros Hpb. apply NoDup_app_inv in Hnd. destruct Hnd as (_ & _ & Hdis). exact (Hdis p Hpb Hps). }
+      intros [H1|[H1|[]]] [H2|[H2|[]]]; try (subst; contradiction). apply Hone; assumption.
+  Qed.
+
+  Lemma one_behemoth_sub s s' : (forall j, In j (ss_running s') -> In j (ss_running s)) ->
+    one_behemoth s -> one_behemoth s'.
+  Proof.
+    intros Hsub Hone b1 b2 Hb1 Hb2 H1 H2. apply Hone; try assumption.
+    - apply in_map_iff in H1. destruct H1 as (j & <- & Hj). apply in_map. apply Hsub. exact Hj.
+    - apply in_map_iff in H2. destruct H2 as (j & <- & Hj). apply in_map. apply Hsub. exact Hj.
+  Qed.
+
+  Lemma sel_loop_limits fuel : forall outer s,
+    loop_inv beh sml s -> (length (ss_running s) < n)%nat -> one_behemoth s ->
+    let r := sel_loop outer fuel W n (length beh + length sml) beh sml leafless s in
+    (length (ss_running (snd r)) <= n)%nat /\ one_behemoth (snd r).
+  Proof.
+    assert (Hdrain : forall s, loop_inv beh sml s -> (length (ss_running s) < n)%nat -> one_behemoth s ->
+              (length (ss_running (snd (drain W fuel s))) <= n)%nat /\ one_behemoth (snd (drain W fuel s))).
+    { intros s [Hi Hincl] Hlen Hone. unfold drain.
+      destruct (sel_wait fuel W 1 true s) as [r|s'] eqn:Ew; cbn [snd]; [split; [lia | exact Hone]|].
+      apply sel_wait_inr in Ew; [|exact Hi]. destruct Ew as (_ & _ & Hle & _ & _ & Hsub).
+      split; [lia | exact (one_behemoth_sub s s' Hsub Hone)]. }
+    induction outer as [|o IH]; intros s Hi Hlen Hone;
+      destruct (length beh + length sml <=? length (ss_started s))%nat eqn:En.
+    - rewrite sel_loop_done by exact En. apply Hdrain; assumption.
+    - rewrite sel_loop_out_of_fuel by exact En. cbn. split; [lia | exact Hone].
+    - rewrite sel_loop_done by exact En. apply Hdrain; assumption.
+    - rewrite sel_loop_step by exact En.
+      pose proof (sel_step_inv beh sml leafless s Hi) as Hi1.
+      destruct (step_limits s Hi Hlen Hone) as [Hlen1 Hone1].
+      destruct (sel_wait fuel W n (fst (sel_step beh sml leafless s)) (snd (sel_step beh sml leafless s)))
+        as [r|s'] eqn:Ew; [cbn [snd]; split; assumption|].
+      destruct Hi1 as [Hp1 Hincl1]. apply sel_wait_inr in Ew; [|exact Hp1].
+      destruct Ew as (Hi' & Hst & _ & _ & Hlt & Hsub). apply IH.
+      + split; [exact Hi'|]. rewrite Hst. exact Hincl1.
+      + exact Hlt.
+      + exact (one_behemoth_sub _ s' Hsub Hone1).
+  Qed.
+End Limits.
+
+(* ---- the pool invariant as a theorem about every state the loop can hand back: stop the
+   outer loop after any number `outer` of iterations (the state at that loop head comes back
+   with PHang), give the inner loops any fuel (a starved inner loop hands back the state
+   right after the start) *)
+Theorem pool_invariant : forall (W : world) (n : nat) (behemoths smaller leafless : list nat) (outer fuel : nat),
+  let s := snd (sel_loop outer fuel W n (length behemoths + length smaller) behemoths smaller leafless sel_init) in
+  pool_inv s /\ (forall p, In p (ss_started s) -> In p (behemoths ++ smaller)).
+Proof.
+  intros W n beh sml leafless outer fuel.
+  exact (proj1 (sel_loop_inv_all W n beh sml leafless fuel outer sel_init (loop_inv_init beh sml))).
+Qed.
+
+Theorem scheduler_limits : forall (W : world) (n : nat) (behemoths smaller leafless : list nat) (outer fuel : nat),
+  (1 <= n)%nat -> NoDup (behemoths ++ smaller) ->
+  let s := snd (sel_loop outer fuel W n (length behemoths + length smaller) behemoths smaller leafless sel_init) in
+  (length (ss_running s) <= n)%nat /\
+  (forall b1 b2, In b1 behemoths -> In b2 behemoths ->
+     In b1 (map fst (ss_running s)) -> In b2 (map fst (ss_running s)) -> b1 = b2).
+Proof.
+  intros W n beh sml leafless outer fuel Hn Hnd.
+  apply (sel_loop_limits W n beh sml leafless Hnd Hn fuel outer sel_init (loop_inv_init beh sml)).
+  - cbn. lia.
+  - intros b1 b2 _ _ [].
+Qed.
+
+(* without the hypothesis NoDup the loop does hang: a parent listed twice can be started only
+   once, so len(started_parents) never reaches len(parent_list) *)
+Lemma duplicate_parent_hangs :
+  fst (run_selection_pool {| code := fun _ => 0%Z; dur := fun _ => 1%nat |} 2 [] [0; 0]%nat []) = PHang.
+Proof. vm_compute. reflexivity. Qed.
